@@ -27,7 +27,7 @@ import (
 // condition false first) the result is the same either way.
 
 const runtimeRule = "C15 run-time errors: 3..14 rows, one row (not first/last by key) holds MinInt64 in b, the chain carries " +
-	"Where(\"abs(b) >= ?\", 0) or Select(\"id, a, abs(b) AS b, s, c, d\") plus the usual conditions/orderings/Limit/Offset calls; " +
+	"Where(\"abs(b) >= ?\", 0) or Select(\"id, a, abs(b) AS b, s, c, d, k, m_n\") plus the usual conditions/orderings/Limit/Offset calls; " +
 	"every read path must return an error or the complete reference result. non-trivial = the hand-driven Rows iteration of the " +
 	"chain delivered at least one row and then failed (the failure happens in mid iteration); distinct = canonical rendering of the case"
 
@@ -52,6 +52,8 @@ func genRuntimeCase(rt *rapid.T) Case {
 		}
 	}
 	c.Rows = rows
+	// the dimensions of the main test that do not combine with the failing expression
+	c.ColMode, c.Cols, c.Distinct, c.Handle, c.Config, c.PresetID, c.StopAt = "", nil, false, "", "", 0, 0
 	c.Expr = rapid.SampledFrom([]string{"where", "where", "select"}).Draw(rt, "expr")
 	// mostly orderings SQLite can stream (no sorter): the failure then comes in mid iteration
 	c.Order = rapid.SampledFrom([]string{"none", "none", "id", "pk", "id desc", "pk desc", "a desc, id", "b, a desc"}).Draw(rt, "order2")
